@@ -15,7 +15,7 @@ RULE = (
     "Data coordinates in float and in integer dtypes (both, easting only with non-integer northings, northing only). Exhaustive product: data set in all k-subsets (k = 1..5; thorough 1..6) of the 9 integer points {0,1,3}x{0,2,7} x queries = all 209 nodes "
     "of the half-unit lattice over and around them (2-D, 1-D and 0-d forms) x k_neighbours = 1..k x reduction {mean, median, min, max} x data "
     "= distinct powers of two (a reduced value identifies its neighbour set); median_distance for k_nearest = 1..k-1 with and without an "
-    "anisotropic projection; distance_mask for maxdist = every exactly representable query-data distance (closed ball) and every "
+    "anisotropic and a non-separable (rotating) projection; distance_mask for maxdist = every exactly representable query-data distance (closed ball) and every "
     "midpoint between consecutive distinct distances x projection x form {array, grid with 1..2 variables}. Oracle: integer squared "
     "distances (x4); a tie at the k-th neighbour is detected exactly and any admissible neighbour set is accepted. "
     "Non-trivial: k >= 2 data points."
@@ -46,7 +46,7 @@ def cases(tier, seed):
                         for rep in ("int_e", "int_n", "int"):
                             yield dict(kind="knn", sub=list(sub), k=kn, red=red, rep=rep)
             for kn in range(1, k):
-                for proj in (False, True):
+                for proj in (False, True, 2):
                     for shape in ("1d", "2d"):
                         if shape == "2d" and k % 2:
                             continue
@@ -54,16 +54,21 @@ def cases(tier, seed):
                         if shape == "1d":
                             yield dict(kind="median_distance", sub=list(sub), k=kn, proj=proj, shape=shape, rep=("int_e", "int_n", "int")[(kn + len(sub)) % 3])
             if k <= (3 if tier == "quick" else 4):
-                for proj in (False, True):
+                for proj in (False, True, 2):
                     for form in ("array2d", "array1d", "grid1", "grid2"):
                         yield dict(kind="mask", sub=list(sub), proj=proj, form=form)
                         if form in ("array1d", "grid2"):
-                            yield dict(kind="mask", sub=list(sub), proj=proj, form=form, rep=("int_e", "int_n", "int")[(sum(sub) + proj) % 3])
+                            yield dict(kind="mask", sub=list(sub), proj=proj, form=form, rep=("int_e", "int_n", "int")[(sum(sub) + int(proj)) % 3])
     yield dict(kind="mask_invalid")
 
 
 def _d2x4(q, p, aniso=False):
-    """4 x squared distance as an exact integer (half-unit queries, integer data)."""
+    """4 x squared distance as an exact integer (half-unit queries, integer data).
+    aniso: False (no projection), True / 1 (anisotropic scaling (2e, 3n)), 2 (non-separable shear/rotation (e + n, e - n))."""
+    if aniso == 2:
+        dx = int(round(2 * (q[0] - p[0])))
+        dy = int(round(2 * (q[1] - p[1])))
+        return (dx + dy) ** 2 + (dx - dy) ** 2
     sx, sy = (2, 3) if aniso else (1, 1)
     dx = int(round(2 * sx * (q[0] - p[0])))
     dy = int(round(2 * sy * (q[1] - p[1])))   # data may sit on half units too (exact in these units)
@@ -84,6 +89,15 @@ def _reduce(red, vals):
 
 def _aniso(e, n):
     return 2 * np.asarray(e), 3 * np.asarray(n)
+
+
+def _rot(e, n):
+    # mixes easting and northing: projecting the axis vectors of a grid is NOT the same as projecting its mesh (seed C15-r2_1)
+    return np.asarray(e) + np.asarray(n), np.asarray(e) - np.asarray(n)
+
+
+def _projfn(proj):
+    return {1: _aniso, True: _aniso, 2: _rot}[proj]
 
 
 def run(case, rec):
@@ -161,7 +175,7 @@ def run(case, rec):
         rs = (lambda a: a.reshape(2, -1)) if case["shape"] == "2d" else (lambda a: a)
         kw = dict(k_nearest=k)
         if proj:
-            kw["projection"] = _aniso
+            kw["projection"] = _projfn(proj)
         got = call(rec, vd.median_distance, (rs(e), rs(n)), **kw)
         if raised(got):
             return rec.check(False, "median_distance raised %r" % (got,))
@@ -175,7 +189,7 @@ def run(case, rec):
             m = len(dists) // 2
             want = dists[m] if len(dists) % 2 else (dists[m - 1] + dists[m]) / 2
             rec.check(abs(gf[i] - want) <= 8 * math.ulp(max(want, 1.0)), "median distance of point %s to its %d nearest OTHER points is %r, got %r" % (p, k, want, gf[i]))
-        rec.cls("median_distance/k=%d/%s" % (k, "proj" if proj else "plain"))
+        rec.cls("median_distance/k=%d/%s" % (k, {0: "plain", 1: "aniso", 2: "rot"}[int(proj)]))
         return
     if kind == "mask":
         proj, form = case["proj"], case["form"]
@@ -200,7 +214,7 @@ def run(case, rec):
             thresholds = thresholds[::3]
         kw = {}
         if proj:
-            kw["projection"] = _aniso
+            kw["projection"] = _projfn(proj)
         for kind_t, t in thresholds:
             want = np.zeros(qe.shape, dtype=bool)
             t4 = F(t) * F(t) * 4
@@ -233,6 +247,6 @@ def run(case, rec):
                     ok = gv.shape == want.shape and bool(np.all(np.isnan(gv) == ~want)) and bool(np.all(gv[want] == np.asarray(src)[want]))
                     rec.check(ok, "grid form (variable %s, maxdist %r): blanked cells are not exactly the cells where the array form is False" % (name, t))
             rec.count("thresholds", 1)
-        rec.cls("mask/%s/%s" % (form, "proj" if proj else "plain"))
+        rec.cls("mask/%s/%s" % (form, {0: "plain", 1: "aniso", 2: "rot"}[int(proj)]))
         return
     raise ValueError(kind)
